@@ -50,7 +50,10 @@ class PotsMonitor:
                 hands.append(None)
                 continue
             hole = [repr(c) for c in st.hole_cards[i]]
-            hands.append([[self.strength(hole + boards[b], t) for t in tn] for b in range(nb)])
+            if getattr(self.strength, 'takes_board', False):
+                hands.append([[self.strength(hole, boards[b], t) for t in tn] for b in range(nb)])
+            else:
+                hands.append([[self.strength(hole + boards[b], t) for t in tn] for b in range(nb)])
         if not any(live):
             ctx.violation('nobody-live', f'hand ended with nobody live; pot {sum(acc["in_pot"])} not awarded',
                           sig=(self.prop, 'nobody-live'))
@@ -68,6 +71,11 @@ class PotsMonitor:
             ctx.counters['terminals_with_multiple_runouts'] += 1
         if len(info['pots']) > 1:
             ctx.counters['terminals_with_side_pots'] += 1
+            if len(tn) > 1 and sum(live) > 1 and any(
+                    len(elig) > 1 and all(hands[i][b][t] is None for i in elig)
+                    and any(live[j] and j not in elig and hands[j][b][t] is not None for j in range(n))
+                    for amt, elig in info['pots'] for b in range(nb) for t in range(len(tn))):
+                ctx.counters['terminals_with_a_type_made_only_by_a_non_contender_of_a_side_pot'] += 1
         if len(info['pots']) > 2:
             ctx.counters['terminals_with_2+_side_pots'] += 1
         recv = acc['recv']
@@ -187,6 +195,16 @@ def real_strength(cards, tname):
     cs = [c for c in cards if c and c != '??']
     b = H.best(tname, cs, ())
     return None if b is None else b[0]
+
+
+def real_strength_hb(hole, board, tname):
+    """the same with hole and board cards kept apart (Omaha: exactly two hole cards)"""
+    from ..refs import handeval as H
+    b = H.best(tname, [c for c in hole if c and c != '??'], [c for c in board if c and c != '??'])
+    return None if b is None else b[0]
+
+
+real_strength_hb.takes_board = True
 
 
 def run_job(job):
